@@ -123,8 +123,13 @@ def gen_sum(rng, n, tier):
                     if rng.random() < 0.3:
                         pnt[2] = float(nodata)
         out.append({'tracks': tracks, 'nodata': nodata, 'res': [rng.choice([0.5, 1, 2, 3]), rng.choice([0.5, 1, 2, 3])], 'margin': rng.choice([0.0, 0.0, 0.25, 0.5]),
-                    'order': rng.sample(OPS, len(OPS)), 'layout': rng.choice([None, None, [False, True], [True, False, True]]), 'again': rng.choice([None, None, None, 'same', 'other']), 'fname': rng.choice(['f', 'f', 'f', 'd', 'id', 'u', 'i', 'ui', 'v', 'speed2']), 'nanz': rng.random() < 0.2})
+                    'order': rng.sample(OPS, len(OPS)), 'layout': rng.choice([None, None, [False, True], [True, False, True]]), 'again': rng.choice([None, None, None, 'same', 'other']), 'fname': rng.choice(['f', 'f', 'f', 'd', 'id', 'u', 'i', 'ui', 'v', 'speed2']), 'nanz': rng.random() < 0.2, 'second': rng.random() < 0.25})
     return out
+
+
+def hval(v, i):
+    """the second feature: defined where the first is not, and at every third observation"""
+    return float(i + 1) if (v is None or i % 3 == 0) else nan
 
 
 def run_sum(case):
@@ -141,24 +146,35 @@ def run_sum(case):
         if case.get('layout') and case['layout'][len(trs) % len(case['layout'])]:
             t.createAnalyticalFeature('g', [1000.0 + i for i in range(len(pts))])      # another feature created first on this track: 'f' is not stored at the same index on every track
         t.createAnalyticalFeature(FN, [nan if v is None else v for (_, _, v) in pts])
+        if case.get('second'):                      # a second summarised feature, undefined at other observations than the first one
+            t.createAnalyticalFeature('h', [hval(v, i) for i, (_, _, v) in enumerate(pts)])
         if case.get('nodata') is not None:
             t.no_data_value = case['nodata']          # the marker a file reader leaves on its tracks; a measured value may be equal to it
         trs.append(t)
     col = TrackCollection(trs)
     ops = [getattr(U, o) for o in case.get('order', OPS)]          # the aggregates are computed in the order they are asked for: every order must give the same maps
-    r = sm.summarize(col, [FN] * len(ops), ops, resolution=tuple(case['res']), margin=case['margin'], verbose=False)
+    if case.get('second'):
+        r = sm.summarize(col, [FN] * len(ops) + ['h', 'h'], ops + [U.co_count, U.co_sum], resolution=tuple(case['res']), margin=case['margin'], verbose=False)
+    else:
+        r = sm.summarize(col, [FN] * len(ops), ops, resolution=tuple(case['res']), margin=case['margin'], verbose=False)
     if case.get('again'):
         # the raster is used again: the same collection is summarised on it a second time, or another collection (other values at some of the same places) in between;
         # the maps describe the collection added last
         if case['again'] == 'other':
             t2 = Track([Obs(ENUCoords(x, y, 0), ObsTime.readUnixTime(i)) for i, (x, y, v) in enumerate(case['tracks'][0])])
             t2.createAnalyticalFeature(FN, [100.0 + i for i in range(t2.size())])
+            if case.get('second'):
+                t2.createAnalyticalFeature('h', [7.0] * t2.size())
             r.addCollectionToRaster(TrackCollection([t2])); r.computeAggregates()
         r.addCollectionToRaster(col); r.computeAggregates()
     grids = {}
     for o in OPS:
         g = r.getAFMap(FN + '#' + o).grid
         grids[o] = [[float(g[i][j]) for j in range(r.ncol)] for i in range(r.nrow)]
+    if case.get('second') and not case.get('again'):
+        for o in ('co_count', 'co_sum'):
+            g = r.getAFMap('h#' + o).grid
+            grids['h#' + o] = [[float(g[i][j]) for j in range(r.ncol)] for i in range(r.nrow)]
     cells = [[None if c is None else [int(c[0]), int(c[1])] for c in [r.getCell(ENUCoords(x, y, 0)) for (x, y, v) in pts]] for pts in case['tracks']]
     return {'ext': [r.xmin, r.xmax, r.ymin, r.ymax], 'ncol': r.ncol, 'nrow': r.nrow, 'grids': grids, 'cells': cells}
 
@@ -207,6 +223,20 @@ def oracle_sum(case, obs):
     nvalid = sum(1 for t in case['tracks'] for (_, _, v) in t if v is not None)
     if total != nvalid:
         return 'counts over all cells add up to %r for %d observations with a value (%d observations)' % (total, nvalid, nobs)
+    if 'h#co_count' in obs['grids']:
+        hb = {}
+        for t in case['tracks']:
+            for i, (x, y, v) in enumerate(t):
+                c = footprint_cell(obs['ext'], case['res'], ncol, nrow, x, y)
+                hv = hval(v, i)
+                hb.setdefault((c[1], c[0]), []).append(None if hv != hv else hv)
+        for o in ('co_count', 'co_sum'):
+            g = obs['grids']['h#' + o]
+            for i in range(nrow):
+                for j in range(ncol):
+                    e = agg_ref(o, hb.get((i, j), []))
+                    if abs(g[i][j] - e) > 1e-9 * (1 + abs(e)):
+                        return '%s of the second feature in cell (row %d, column %d) is %r; over its values %r located in that cell it is %r' % (o, i, j, g[i][j], hb.get((i, j), []), e)
     for o in OPS:
         g = obs['grids'][o]
         if len(g) != nrow or any(len(r) != ncol for r in g):
